@@ -282,6 +282,19 @@ def main(argv=None):
     known_hits = {}
     skipped = 0
     ctx = mp.get_context('fork')
+    import atexit
+    import shutil
+    import tempfile
+    parent = tempfile.mkdtemp(
+        prefix='psim-run-',
+        dir='/dev/shm' if os.access('/dev/shm', os.W_OK) else None)
+    os.environ['PSIM_SCRATCH_PARENT'] = parent
+    main_pid = os.getpid()
+
+    def _rm_parent():
+        if os.getpid() == main_pid:
+            shutil.rmtree(parent, ignore_errors=True)
+    atexit.register(_rm_parent)
     pool = ProcessPoolExecutor(workers, mp_context=ctx,
                                initializer=_init_worker)
     try:
